@@ -26,6 +26,8 @@ EXPLANATION = (
     'fixed-width conversion that could cut "!elliptannulus") and the padded row values of x, y, r, rotang in the same row '
     'order; (R7b) the filled COMPONENT array is converted to a numeric dtype on every path to its return; (R11) the padding '
     'the writer adds to shorter vector columns is not read back as polygon vertices. Not decided: astropy table/FITS I/O.')
+EXPLANATION_ADDED = (' (R12) column addressing on read (NAME<i> is element i of the cell, NAME the whole cell) on a probe row; (R13) table rows become regions in row order, skipped rows are dropped, foreign columns are rejected.')
+EXPLANATION += EXPLANATION_ADDED
 TRUSTED = ['np.atleast_1d keeps element order', 'QTable column access by name']
 ASSUMPTIONS = ['real arithmetic']
 
